@@ -259,3 +259,4 @@ def run(ctx):
         first = [u for u in uniq if u in keep]
         uniq = first + [rest[i] for i in sorted(rng.sample(range(len(rest)), max(0, min(len(rest), 20000 - len(first)))))]   # structured mutants all kept; the rest sampled
     read_stage(ctx, [hexs(x) for x in uniq])
+    read_stage(ctx, [hexs(x) for x in uniq[::9]], op='bundle.read.buffer')
